@@ -41,6 +41,16 @@ def determinism(n=200):
     focuses = ["C20", "C10", "C09", "C11", "C14"]
     tasks = [{"tid": "h%d" % i, "kind": "gen", "seed": 7_000_000 + i, "focus": focuses[i % 5]} for i in range(n)]
     tasks += [{"tid": "e%d" % i, "kind": "enum", "seed": 7_100_000 + i, "focus": "C20"} for i in range(n // 10)]
+    # histories whose syncs run in freshly started interpreters (their own hash seeds): a seam of its own
+    from dtsim import gen_project
+
+    spawned, s = [], 7_200_000
+    while len(spawned) < max(4, n // 16) and s < 7_202_000:
+        if gen_project.gen_scenario(s, "C10")["knobs"].get("processes") == "spawn":
+            spawned.append({"tid": "s%d" % len(spawned), "kind": "gen", "seed": s, "focus": "C10"})
+        s += 1
+    tasks += spawned
+    print("  (%d of the histories run every sync in a freshly started interpreter)" % len(spawned))
     runs = []
     for label, nw, hs in (("16 workers", 16, "0"), ("1 worker", 1, "0"), ("16 workers, PYTHONHASHSEED=12345", 16, "12345"), ("16 workers again", 16, "0")):
         sub = tasks if nw > 1 else tasks[: max(20, n // 5)]
